@@ -19,7 +19,7 @@ from fractions import Fraction
 import numpy as np
 import scipy.sparse as sp
 
-from ..common import q, qlist, fr, frlist, call_impl
+from ..common import q, qlist, fr, frlist, call_impl, vary_layout
 
 RULE = ("getB: random ndim 2/3 (and ndim 4 -> ValueError), nshape 1..9, small-integer / dyadic dN, voigt on/off (exact); "
         "getD: random E in (0.1,10), nu in (-0.9,0.49) x 14 mode strings (tolerance) and exactly-representable (E,nu) "
@@ -111,7 +111,10 @@ class Batch:
 # ------------------------------------------------------------------------------------------------
 def _domain(gen):
     pm = _pm()
-    return pm.DomainDefinition(gen["nelx"], gen["nely"], gen["nelz"], *[float(v) for v in gen["s"]])
+    sz = [float(v) for v in gen["s"]]
+    if all(v == int(v) and abs(v) < 2 ** 30 for v in sz) and (gen["nelx"] + 2 * gen["nely"] + int(sum(sz))) % 2 == 0:
+        sz = [int(v) for v in sz]      # whole-number element sizes handed over as Python ints (unitx=2): same domain
+    return pm.DomainDefinition(gen["nelx"], gen["nely"], gen["nelz"], *sz)
 
 
 def _dim(gen):
@@ -166,7 +169,7 @@ def _build_module(gen, plain=False):
             kw["matrix_type"] = MT[gen["mtype"]]
     if gen["op"] == "general":
         kdt = int if gen.get("kdtype", gen.get("dtype")) == "int" else float
-        Ke = np.array(gen["elmat"], dtype=kdt)
+        Ke = vary_layout(np.array(gen["elmat"], dtype=kdt), (gen["nelx"], gen["nely"], gen["nelz"], len(gen["elmat"]), str(gen["elmat"][0][:3])))
         m = pm.AssembleGeneral(s, domain=dom, element_matrix=Ke, **kw)
     elif gen["kind"] == "stiffness":
         m = pm.AssembleStiffness(s, domain=dom, e_modulus=float(gen["E"]), poisson_ratio=float(gen["nu"]),
